@@ -9,6 +9,7 @@ OPS = {
     'dense_add_scaled': 11, 'dense_index': 12,
     'sparse_from': 20, 'sparse_eval': 21, 'sparse_fix': 22, 'sparse_relabel': 23, 'sparse_to_dense': 24,
     'sparse_add': 25, 'sparse_sub': 26, 'sparse_neg': 27, 'sparse_add_scaled': 28, 'sparse_index': 29,
+    'sparse_relabel_wide': 30, 'sparse_eval_wide': 31,
     'term_new': 40, 'term_cmp': 41, 'term_eval': 42, 'mv_from': 43, 'mv_eval': 44, 'mv_add': 45,
     'mv_sub': 46, 'mv_neg': 47, 'mv_add_scaled': 48,
 }
@@ -292,6 +293,23 @@ def gen(rng, tier):
                         idx, vals, sc = sparse_entries(rng, p, n)
                     yield 'sparse_relabel', [[p], [n], idx, vals, [a, b, k]], cls + '/' + sc
 
+    # ---- WIDE sparse extensions (33..63 variables, a handful of entries): hypercube indices no longer fit in 32 bits --
+    # relabel windows that end above bit 32 (b + k > 32), entries whose index has bits set above bit 31, evaluation on such
+    # tables (a dense table of that arity cannot exist, the sparse form can).  Ops 30 / 31 print stored entries only.
+    for _ in range(60 * scale):
+        p = rng.choice([97, FR])
+        n = rng.choice([33, 34, 40, 48, 63])
+        cnt = rng.randrange(1, 6)
+        idx = [rng.choice([(1 << n) - 1, 1 << (n - 1), (1 << 32) | rng.randrange(1 << 32), rng.randrange(1 << n),
+                           rng.randrange(1 << 32) << (n - 32)]) for _ in range(cnt)]
+        vals = [rng.randrange(1, p) for _ in idx]
+        k = rng.choice([1, 2, 3, 4])
+        b = rng.choice([n - k, 32 - k + 1, 31, rng.randrange(k, n - k + 1)])
+        b = max(k, min(b, n - k))
+        a = rng.choice([0, b - k, rng.randrange(0, b - k + 1)])
+        yield 'sparse_relabel_wide', [[p], [n], idx, vals, [a, b, k]], 'wide/relabel/n%d/%s' % (n, 'crosses32' if b + k > 32 else 'below32')
+        x, pc = point(rng, p, n)
+        yield 'sparse_eval_wide', [[p], [n], idx, vals, x], 'wide/eval/n%d/%s' % (n, pc)
     # ---- dense: construction, evaluation, fixing, indexing ------------------------------------
     for _ in range(500 * scale):
         p = field(rng)
